@@ -425,6 +425,18 @@ func SameDRR(a, b *appencryption.DataRowRecord) bool {
 // Encrypt runs Session.Encrypt and registers the record on success.
 func (w *World) Encrypt(se *Sess, payload []byte) (*Rec, *OpRec) {
 	orig := append([]byte(nil), payload...)
+	// what the SDK gets is the caller's own buffer: on every second call one with room behind the
+	// payload (a reused scratch buffer), pre-filled so that writes into that room are seen
+	spare := 0
+	if len(w.Ops)%2 == 0 {
+		spare = 64
+	}
+	buf := make([]byte, len(orig)+spare)
+	for i := range buf {
+		buf[i] = 0x5a
+	}
+	copy(buf, orig)
+	payload = buf[:len(orig)]
 	op := w.begin("encrypt", se.P, se.Part)
 	var drr *appencryption.DataRowRecord
 	ctx, cancel := context.WithCancel(context.Background())
@@ -438,6 +450,22 @@ func (w *World) Encrypt(se *Sess, payload []byte) (*Rec, *OpRec) {
 	}
 	if string(orig) != string(payload) {
 		w.Violate("payload-modified", "payload-modified", "Encrypt modified the caller's payload (op %d)", op.Idx)
+	}
+	for _, b := range buf[len(orig):] {
+		if b != 0x5a {
+			w.Violate("payload-modified", "payload-buffer-overrun", "Encrypt wrote into the caller's buffer behind the payload (op %d)", op.Idx)
+			break
+		}
+	}
+	if drr != nil && op.Err == nil {
+		// the caller reuses its buffer for the next message: the record it already holds must not change
+		before := copyDRR(drr)
+		for i := range buf {
+			buf[i] = 0xa5
+		}
+		if !SameDRR(&before, drr) {
+			w.Violate("record-aliases-payload", "record-shares-memory-with-payload", "the record returned by Encrypt shares memory with the caller's payload buffer: it changed when the caller reused that buffer (op %d)", op.Idx)
+		}
 	}
 	if op.Err != nil {
 		if drr != nil {
